@@ -24,6 +24,7 @@ class Exploration:
         s.NT = len(s.threads); s.K = cfg.get('K', 0)
         vals.name.defs = []; vals.name.n = 0; vals.SIB.clear()
         opts = dict(cfg.get('opts', {}))
+        vals.MAXALT = int(opts.get('maxalt', 24))
         s.e = Engine(m, s.NT, concrete=concrete, opts=opts)
         if concrete is None: vals.pruner.reset(s.e.assumes)
         vals.pruner.enabled = concrete is None and bool(opts.get('prune'))
